@@ -297,7 +297,14 @@ def check_adjacents(ck, prog, cls, deep=False):
     if fn is None:
         raise AnalysisError('anchor method find_adjacents vanished')
     q = fn.qualname
-    has_self = adjacency_init(prog, cls, fn)
+    try:
+        has_self = adjacency_init(prog, cls, fn)
+    except AnalysisError as exc:
+        # the lists are built some other way (one local list per cell appended to the table, a
+        # comprehension per cell, ...): only the concrete small-grid search can say anything
+        ck.saw('adjacency_fallback', str(exc))
+        witness_adjacency(ck, prog, cls, fn, None)
+        return
     n_cases = 0
     fallback = False
     # the position-case analysis below either understands the loop nest or hands over to the
@@ -439,10 +446,31 @@ def witness_adjacency(ck, prog, cls, fn, has_self=True, cross_check=False):
     for bins in range(1, 6):
         st = base_state()
         st.fields[('self', 'bins_per_side')] = Sym.const(bins)
+        # (a) the table the function leaves behind, when the interpreter can follow its
+        # construction to a literal list of lists of numbers on this concrete grid
+        it0 = Interp(prog, Hooks(), max_paths=200000)
+        it0.self_cls = cls
+        st_a = st.copy()
+        st_a.fields.pop(('self', 'adjacents'), None)
+        outs0 = it0.run(fn, [], {}, st=st_a, self_obj=ObjRef('self', cls))
+        table = None
+        if len(outs0) == 1 and outs0[0].kind in ('return', 'fall'):
+            tv = outs0[0].state.fields.get(('self', 'adjacents'))
+            if isinstance(tv, Tup) and len(tv.items) == bins * bins and all(
+                    isinstance(l_, Tup) and all(isinstance(x_, Sym) and x_.is_const()
+                                                for x_ in l_.items) for l_ in tv.items):
+                table = {c: {int(x_.const_value()) for x_ in l_.items}
+                         for c, l_ in enumerate(tv.items)}
+        if table is None and has_self is None:
+            raise AnalysisError('%s: the adjacency table is neither created as one list per cell '
+                                'nor followed to a literal table on a %dx%d grid; cannot conclude'
+                                % (q, bins, bins))
         it = Interp(prog, Concrete(), max_paths=200000)
         it.self_cls = cls
-        outs = it.run(fn, [], {}, st=st, self_obj=ObjRef('self', cls))
+        outs = it.run(fn, [], {}, st=st, self_obj=ObjRef('self', cls)) if table is None else []
         got = {c: ({c} if has_self else set()) for c in range(bins * bins)}
+        if table is not None:
+            got = table
         for o in outs:
             for e in o.state.effects:
                 if e.kind == 'call' and isinstance(e.target, Bound) and e.target.name == 'append':
